@@ -144,6 +144,7 @@ HEADER = r'''// GENERATED by translate/gen_accessors.py from the current headers
 #include <string>
 #include <type_traits>
 #include <vector>
+#include <typeinfo>
 #include <list>
 #include <cstring>
 #include <stdexcept>
@@ -291,6 +292,15 @@ def generate(gen_dir=None):
     for c in flagged:
         L.append('    m += pdu.matches_flag(%s::pdu_flag) ? " 1" : " 0"; d += dynamic_cast<const %s*>(&pdu) ? " 1" : " 0";' % (c, c))
     L.append('    return m + " " + d;')
+    L.append('}')
+    # a search by the object's own exact class, started at the object, finds the object itself
+    L.append('inline int self_find(const PDU& pdu) {')
+    for c in flagged:
+        if res[c].get('abstract'):
+            continue
+        L.append('    if (typeid(pdu) == typeid(%s)) return pdu.find_pdu<%s>() == &pdu ? 1 : 0;' % (c, c))
+    L.append('    if (typeid(pdu) == typeid(RawPDU)) return pdu.find_pdu<RawPDU>() == &pdu ? 1 : 0;')
+    L.append('    return -1;')
     L.append('}')
     # setters
     L.append('// returns 1 when the (class, field) setter exists and was called')
